@@ -49,6 +49,15 @@ func main() {
 			}
 			fmt.Printf("warm load: %d packages in %.1fs\n", len(p.Pkgs), p.LoadTime.Seconds())
 			os.Exit(0)
+		case "--dump":
+			// developer aid: kverif --dump effects|calls|guards <pkg> <recv|-> <func>
+			p, err := load.Load(repo, nil, nil)
+			if err != nil {
+				fmt.Println(err)
+				os.Exit(2)
+			}
+			rules.Dump(p, args[i+1], args[i+2], args[i+3], args[i+4])
+			os.Exit(0)
 		case "--list":
 			var ids []string
 			for id := range rules.Registry {
